@@ -216,6 +216,32 @@ PROPS["C16"] = {
     "expect_probes": ["os.fork", "fork.parent_continues"],
 }
 
+PROPS["C17"] = {
+    "level": "exploration",
+    "scenarios": {"progress": {"quick": 250000, "thorough": 8000000, "thorough_time": 900}},
+    "rule": "one evaluation = one seeded simulated execution on one structure (wfcqueue, wfstack, lfstack, rculfqueue, rculfhash, read-side of a seed-chosen flavor): 2-4 threads run a random prefix; "
+            "about a third of the operations are executed SOLO: the issuing thread freezes every other simulated thread exactly where it stands (store buffers drained first) - between the tail exchange and the link store of an enqueue, "
+            "between head exchange and next store of a push, after a logical delete and before its unlink, in the middle of a resize, inside synchronize_rcu() holding locks - runs the operation alone and is measured. "
+            "Oracles: documented wait-free operations (wfcq enqueue, wfs push, pop_all, lfht lookup/traversal, read lock/unlock of a registered thread, qsbr quiescent state) and lock-free ones (lfs push/pop, lfq enqueue/dequeue, lfht add/add_unique/add_replace/del) "
+            "finish with zero cpu_relax events, zero blocking events and <= 6000 own steps; *_nonblocking variants never wait and return WOULDBLOCK only while some other thread is inside an operation; after the thaw the structure passes a conservation check. "
+            "Non-trivial = every run has solo-measured operations; distinct = distinct event-log fingerprints.",
+    "assumptions": COMMON_ASSUME + ["malloc/free inside cds_lfq_dequeue_rcu and the futex wake in call_rcu() are treated as non-blocking primitives; call_rcu()'s one-time creation of its default helper (a mutex) is done before anything is measured",
+                                    "'another operation in progress' is over-approximated by a per-thread flag set around the whole harness-level operation (the WOULDBLOCK rule is therefore checked in its weakest form)"],
+    "expect_probes": ["progress.solo_waitfree_op", "progress.solo_lockfree_op", "progress.solo_while_others_mid_op", "progress.wouldblock_seen"],
+}
+PROPS["C20"] = {
+    "level": "exploration",
+    "scenarios": {"uatomic": {"quick": 250000, "thorough": 8000000, "thorough_time": 900}},
+    "rule": "one evaluation = one seeded simulated execution against the default x86 implementation or the CONFIG_RCU_USE_ATOMIC_BUILTINS implementation (both compiled from /repo): "
+            "(a) 2-4 threads apply add/sub/inc/dec/add_return/sub_return/cmpxchg-increment/or/and/xchg to 1-, 2-, 4- and 8-byte cells at odd offsets packed between bytes owned and rewritten by other threads, with a context switch possible at every access: "
+            "final values must equal the truncated sums, per-thread bits and xchg tokens conserved, neighbours intact; "
+            "(b) store-buffering litmus under simulated x86-TSO with each documented full-barrier operation (cmm_smp_mb, xchg, successful cmpxchg, add_return, sub_return, store with CMM_SEQ_CST / CMM_SEQ_CST_FENCE) between store and load: both-zero never; without a barrier it must occur (probe); message-passing litmus; "
+            "(c) sequential value semantics of every operation for signed/unsigned char/short/int/long on operands at width and sign boundaries against a plain C reference with guard words around the cell - this slice is ordinary seeded differential testing riding in the harness. "
+            "Non-trivial = every run (concurrent RMW on shared cells); distinct = distinct event-log fingerprints.",
+    "assumptions": COMMON_ASSUME + ["atomicity and barrier strength of one machine instruction (lock prefix, xchg, mfence, asm clobbers) are axioms of the simulator and are NOT tested; what is tested is the C-level macro layer: operand widths, casts, retry loops, which primitive is selected, where fences are emitted"],
+    "expect_probes": ["uatomic.sb_both_zero_without_barrier", "uatomic.sb_litmus_ran"],
+}
+
 NOT_APPLICABLE = {}
 
 _SIM_NOTE = ("Trusted base: the usim runtime (scheduler, TSO model, simulated OS, tracked arena), gcc's access instrumentation, "
@@ -279,4 +305,11 @@ MANIFEST_TEXT = {
     "C16": {"design_ref": "3.16",
             "level_text": "Seeded exploration of a real fork() at any point relative to in-flight grace periods, queued callbacks, sleeping/busy helpers and resize work; per-process exactly-once, termination and grace-period oracles.",
             "level_note": _SIM_NOTE + " The child process is a real forked process running under the same simulator state."},
+    "C17": {"design_ref": "3.17",
+            "level_text": "Seeded exploration of suspension points: other threads are frozen at arbitrary points inside their operations and the measured operation must finish alone without spinning or blocking within a step bound.",
+            "level_note": _SIM_NOTE},
+    "C20": {"design_ref": "3.20 and 4",
+            "level_text": "Partial claim: seeded exploration of the C-level uatomic layer (lost updates under preemption at every access, litmus tests under simulated TSO, differential value semantics for both implementations). Single-instruction atomicity and fencing are axioms of the simulator, not something it can test.",
+            "level_note": _SIM_NOTE + " single-instruction atomicity and fencing are axioms of the simulator, not something it can test.",
+            "technique": "deterministic simulation (preemption at every access, simulated x86-TSO litmus) plus seeded differential testing of value semantics"},
 }
